@@ -42,10 +42,6 @@ _C01_REQ = ["blocks_phase0", "blocks_altair", "blocks_bellatrix", "blocks_capell
             "blocks_with_blob_commitments", "fork_upgrades"]
 REQUIRED = {"C02": {"quick": _C02_REQ, "thorough": _C02_REQ}, "C01": {"quick": _C01_REQ, "thorough": _C01_REQ}}
 
-# every k-th chain scenario runs WITHOUT the harness-side compensation of the stale sync-committee cache
-# (known finding), so that the defect itself stays observed
-NO_COMPENSATION_EVERY = {"quick": 6, "thorough": 9}
-
 JAVA_OPTS = "-Xss512m -XX:TieredStopAtLevel=1 -XX:ParallelGCThreads=2 -XX:CICompilerCount=1"
 
 
@@ -192,7 +188,7 @@ def run_check(pid, tier, seed, replay=None, family="idle,chain"):
     from concurrent.futures import ThreadPoolExecutor
     mc_pool = ThreadPoolExecutor(max_workers=1)
     mc_future = mc_pool.submit(mc_sanity, tier)
-    out, stats = record(tier, seed, family, ["-no-compensation-every", str(NO_COMPENSATION_EVERY[tier])])
+    out, stats = record(tier, seed, family)
     files = [f["path"] for f in stats["files"] if f["events"] > 1]
     if not files:
         raise lib.InfraError("recorder produced no traces")
@@ -276,9 +272,6 @@ def run_check(pid, tier, seed, replay=None, family="idle,chain"):
 
 
 ASSUMPTIONS = [
-    "all but every k-th chain history run with chain.SyncFixState, a state wrapper that reloads the epochs "
-    "context's sync-committee caches at epoch starts (compensates the known finding stale_sync_committee_cache so "
-    "that the rest of the transition can be compared beyond the second sync-committee period)",
     "scaled presets S1-S4 (every quantity < 2^31); overflow behaviour at real Gwei magnitudes is out of scope",
     "hash_tree_root / BLS / shuffling are environment oracles: state and header roots come from the struct-form "
     "hash_tree_root and the harness' own sha256 glue, committees / proposers / sync-committee members from an "
@@ -382,7 +375,7 @@ def selftest():
     """Binding self-test: the trace specification rejects a corrupted and a truncated trace, and a canned
     mutation of zrnt is reported as a VIOLATION by the real check commands."""
     report = []
-    out, stats = record("quick", 1, "chain", ["-only", "random-0", "-no-compensation-every", "0"])
+    out, stats = record("quick", 1, "chain", ["-only", "random-0"])
     files = sorted(f["path"] for f in stats["files"] if f["events"] > 10)
     if not files:
         raise lib.InfraError("selftest: no trace recorded")
